@@ -157,12 +157,22 @@ def coq_args(work):
     return ["-R", COQDIR, "PyRtcm", "-R", work, "PyRtcmGen", "-w", "-notation-overridden,-deprecated-hint-without-locality,-deprecated-instance-without-locality"]
 
 
+def _big_stack():
+    """coqc reads long case literals recursively: lift the stack limit of the child to the hard limit (no effect on results)"""
+    try:
+        import resource
+        soft, hard = resource.getrlimit(resource.RLIMIT_STACK)
+        resource.setrlimit(resource.RLIMIT_STACK, (hard, hard))
+    except Exception:  # noqa
+        pass
+
+
 def coqc(path, work, timeout=600):
     """compile one file; returns (ok, stdout+stderr, seconds)"""
     t0 = time.time()
     try:
         p = subprocess.run(["timeout", str(timeout), "coqc"] + coq_args(work) + [path], cwd=work,
-                           capture_output=True, text=True, timeout=timeout + 30)
+                           capture_output=True, text=True, timeout=timeout + 30, preexec_fn=_big_stack)
         return p.returncode == 0, p.stdout + p.stderr, time.time() - t0
     except subprocess.TimeoutExpired:
         return False, "TIMEOUT after %ds" % timeout, time.time() - t0
